@@ -51,6 +51,148 @@ theorem sortList_perm {xs ys : List Elem} (h : xs.Perm ys) : sortList xs = sortL
 theorem toOrderedSet_perm {xs ys : List Elem} (h : xs.Perm ys) : toOrderedSet xs = toOrderedSet ys :=
   Perm.foldr_eq' h (fun x _ y _ z => setInsert_comm y x z) []
 
+/-! the models of `sort` and of `BTreeSet` are what they claim to be: the result is ascending, has
+the content of the input, and (for the set) no duplicates — so it is *the* canonical listing of the
+content, a function of the content alone -/
+
+theorem ordInsert_perm (a : Elem) (l : List Elem) : (ordInsert a l).Perm (a :: l) := by
+  induction l with
+  | nil => exact Perm.refl _
+  | cons b l ih =>
+    simp only [ordInsert]
+    split
+    · exact Perm.refl _
+    · exact (Perm.cons b ih).trans (Perm.swap a b l)
+
+/-- `sort` keeps the content (with multiplicities) -/
+theorem C11_sortList_content (xs : List Elem) : (sortList xs).Perm xs := by
+  induction xs with
+  | nil => exact Perm.refl _
+  | cons a xs ih => exact (ordInsert_perm a _).trans (Perm.cons a ih)
+
+theorem ordInsert_sorted (a : Elem) (l : List Elem) (h : l.Pairwise (· ≤ ·)) :
+    (ordInsert a l).Pairwise (· ≤ ·) := by
+  induction l with
+  | nil => simp [ordInsert]
+  | cons b l ih =>
+    simp only [ordInsert]
+    rw [List.pairwise_cons] at h
+    split
+    · rename_i hab
+      exact List.pairwise_cons.2 ⟨fun x hx => by
+        rcases List.mem_cons.1 hx with rfl | hx
+        · exact hab
+        · exact Nat.le_trans hab (h.1 x hx), List.pairwise_cons.2 h⟩
+    · rename_i hab
+      refine List.pairwise_cons.2 ⟨fun x hx => ?_, ih h.2⟩
+      rcases List.mem_cons.1 ((ordInsert_perm a l).mem_iff.1 hx) with e | hx
+      · rw [e]; exact Nat.le_of_lt (Nat.lt_of_not_le hab)
+      · exact h.1 x hx
+
+/-- `sort` yields an ascending list -/
+theorem C11_sortList_sorted (xs : List Elem) : (sortList xs).Pairwise (· ≤ ·) := by
+  induction xs with
+  | nil => exact List.Pairwise.nil
+  | cons a xs ih => exact ordInsert_sorted a _ ih
+
+theorem mem_setInsert (a x : Elem) (l : List Elem) : x ∈ setInsert a l ↔ x = a ∨ x ∈ l := by
+  induction l with
+  | nil => simp [setInsert]
+  | cons b l ih =>
+    simp only [setInsert]
+    split
+    · simp
+    · split
+      · rename_i hab; subst hab; simp
+      · simp only [List.mem_cons, ih]
+        constructor
+        · rintro (h | h | h)
+          · exact Or.inr (Or.inl h)
+          · exact Or.inl h
+          · exact Or.inr (Or.inr h)
+        · rintro (h | h | h)
+          · exact Or.inr (Or.inl h)
+          · exact Or.inl h
+          · exact Or.inr (Or.inr h)
+
+/-- the ordered set has exactly the elements of the input -/
+theorem C11_toOrderedSet_content (xs : List Elem) (x : Elem) : x ∈ toOrderedSet xs ↔ x ∈ xs := by
+  induction xs with
+  | nil => simp [toOrderedSet]
+  | cons a xs ih =>
+    have : toOrderedSet (a :: xs) = setInsert a (toOrderedSet xs) := rfl
+    rw [this, mem_setInsert, ih, List.mem_cons]
+
+theorem setInsert_strict (a : Elem) (l : List Elem) (h : l.Pairwise (· < ·)) :
+    (setInsert a l).Pairwise (· < ·) := by
+  induction l with
+  | nil => simp [setInsert]
+  | cons b l ih =>
+    simp only [setInsert]
+    have h' := List.pairwise_cons.1 h
+    split
+    · rename_i hab
+      exact List.pairwise_cons.2 ⟨fun x hx => by
+        rcases List.mem_cons.1 hx with rfl | hx
+        · exact hab
+        · exact Nat.lt_trans hab (h'.1 x hx), h⟩
+    · split
+      · exact h
+      · rename_i h1 h2
+        refine List.pairwise_cons.2 ⟨fun x hx => ?_, ih h'.2⟩
+        rcases (mem_setInsert a x l).1 hx with e | hx
+        · rw [e]; exact Nat.lt_of_le_of_ne (Nat.le_of_not_lt h1) (fun e' => h2 e'.symm)
+        · exact h'.1 x hx
+
+/-- the ordered set is strictly ascending: no duplicates, one canonical order -/
+theorem C11_toOrderedSet_strict (xs : List Elem) : (toOrderedSet xs).Pairwise (· < ·) := by
+  induction xs with
+  | nil => exact List.Pairwise.nil
+  | cons a xs ih => exact setInsert_strict a _ ih
+
+/-- … hence two inputs with the same elements (any order, any multiplicities — two hash seeds,
+two insertion histories) give the same ordered set -/
+theorem C11_toOrderedSet_content_determines (xs ys : List Elem) (h : ∀ x, x ∈ xs ↔ x ∈ ys) :
+    toOrderedSet xs = toOrderedSet ys := by
+  have hs : ∀ (l₁ l₂ : List Elem), l₁.Pairwise (· < ·) → l₂.Pairwise (· < ·) →
+      (∀ x, x ∈ l₁ ↔ x ∈ l₂) → l₁ = l₂ := by
+    intro l₁
+    induction l₁ with
+    | nil =>
+      intro l₂ _ _ hm
+      cases l₂ with
+      | nil => rfl
+      | cons b l₂ => exact absurd ((hm b).2 (List.mem_cons_self ..)) (by simp)
+    | cons a l₁ ih =>
+      intro l₂ h₁ h₂ hm
+      cases l₂ with
+      | nil => exact absurd ((hm a).1 (List.mem_cons_self ..)) (by simp)
+      | cons b l₂ =>
+        have p₁ := List.pairwise_cons.1 h₁
+        have p₂ := List.pairwise_cons.1 h₂
+        have hab : a = b := by
+          have ha := (hm a).1 (List.mem_cons_self ..)
+          have hb := (hm b).2 (List.mem_cons_self ..)
+          rcases List.mem_cons.1 ha with e | ha
+          · exact e
+          · rcases List.mem_cons.1 hb with e | hb
+            · exact e.symm
+            · exact absurd (Nat.lt_trans (p₂.1 a ha) (p₁.1 b hb)) (Nat.lt_irrefl _)
+        subst hab
+        congr 1
+        refine ih l₂ p₁.2 p₂.2 (fun x => ?_)
+        constructor
+        · intro hx
+          rcases List.mem_cons.1 ((hm x).1 (List.mem_cons_of_mem _ hx)) with e | hx'
+          · subst e; exact absurd (p₁.1 x hx) (Nat.lt_irrefl _)
+          · exact hx'
+        · intro hx
+          rcases List.mem_cons.1 ((hm x).2 (List.mem_cons_of_mem _ hx)) with e | hx'
+          · subst e; exact absurd (p₂.1 x hx) (Nat.lt_irrefl _)
+          · exact hx'
+  exact hs _ _ (C11_toOrderedSet_strict xs) (C11_toOrderedSet_strict ys)
+    (fun x => by rw [C11_toOrderedSet_content, C11_toOrderedSet_content]; exact h x)
+
 /-- at most one element of `xs` satisfies `p` -/
 def AtMostOne (p : Elem → Bool) (xs : List Elem) : Prop :=
   ∀ a ∈ xs, ∀ b ∈ xs, p a = true → p b = true → a = b
